@@ -113,6 +113,20 @@ CHECKS = {
              "canonical dumps, and in every state the dump of {a, b, t, u} must equal a Python deep-copy model.",
         note="trusted: the deep-copy model; impure builtins (random, read, readln, input, getsys, getenv) are excluded from (a); objects are shared by design (C17)",
         design="DESIGN.md section 4, C05"),
+    "C11": dict(
+        engine="E2 hist",
+        technique="exhaustive enumeration of (valid prefix x rejected text at every token position x probe suite) histories on the real parser, differential against an undisturbed twin context",
+        text="For each valid prefix (variables of every type, $-variable, tables, tuples, typed nulls; five functions incl. overloads and a recursive one) and "
+             "each of 22 valid texts touching them (loops over existing variables, forall over existing and nested tables, begin/exception, typed "
+             "re-declaration, redefinition of the first / middle / last / recursive function, new overload, chained statements), every truncation at a token "
+             "boundary and every replacement of one token by each of 10 poison tokens is fed to the parser (Parser::parse, bloc_parse_executable, "
+             "interactive parseStatement+clear); kept iff rejected. Oracle: every variable the prefix introduced keeps value, type, symbol type and "
+             "constraint flags; the function table (names, arities, unparsed bodies) is unchanged; no parsing flag, block level, control entry or backed-up "
+             "symbol is left; then a probe suite (call every function, print/retype/mutate every variable, redefine and add functions, run all 22 valid "
+             "texts) must behave identically in the disturbed context and in an undisturbed twin. Thorough adds two more prefixes, all three routes for "
+             "every text and chains of two rejected texts.",
+        note="trusted: differential twin; names introduced only by the rejected text are ignored, as the property allows",
+        design="DESIGN.md section 4, C11"),
 }
 
 NOT_YET = {}
